@@ -8,15 +8,20 @@ use serde_json::{json, Value};
 
 use crate::util::NdjsonOut;
 
-fn payload(n: u64, mb: bool) -> String {
-    if mb {
-        "é⏸⚠".chars().cycle().take(n as usize).collect()
+fn payload(n: u64, mb: u64) -> String {
+    if mb > 0 {
+        // shift the multi-byte pattern by 0..3 ASCII bytes so that every truncation offset is hit off a boundary
+        // (the same shift is appended, because bounds that keep a tail measure the cut from the END)
+        let mut s = "a".repeat((mb - 1) as usize);
+        s.extend("é⏸⚠".chars().cycle().take(n as usize));
+        s.push_str(&"a".repeat((mb - 1) as usize));
+        s
     } else {
         "a".repeat(n as usize)
     }
 }
 
-fn event_of(f: &Value, mb: bool, idx: usize) -> Event {
+fn event_of(f: &Value, mb: u64, idx: usize) -> Event {
     let n = f["n"].as_u64().unwrap_or(0);
     let id = f["id"].as_str().unwrap_or("-").to_string();
     let q = f["q"].as_i64().unwrap_or(0);
@@ -28,7 +33,7 @@ fn event_of(f: &Value, mb: bool, idx: usize) -> Event {
         "tstart" => EventKind::ToolStarted { tool_id: id, name: "bash".into(), args: json!({"command": payload(3, mb)}), timeout_ms: None },
         "tout" => EventKind::ToolStdout { tool_id: id, chunk: payload(n * 2000, mb) },
         "tend" => EventKind::ToolEnded { tool_id: id, exit_code: 0, duration_ms: 1, artifacts: Some(json!({"artifact_id": "a".repeat(64)})) },
-        "tfail" => EventKind::ToolFailed { tool_id: id, error: payload(90, true) },
+        "tfail" => EventKind::ToolFailed { tool_id: id, error: payload(90, 1) },
         _ => EventKind::CheckpointFailed { action: rip_kernel::CheckpointAction::Create, error: payload(5, mb) },
     };
     Event {
@@ -114,7 +119,7 @@ pub fn engine_surface(cases: Vec<Value>, out: &mut NdjsonOut) {
         let frames = case["frames"].as_array().cloned().unwrap_or_default();
         let cap = case["cap"].as_u64().unwrap_or(2) as usize;
         let maxout = case["maxout"].as_u64().unwrap_or(8) as usize;
-        let mb = case["mb"].as_bool().unwrap_or(false);
+        let mb = case["mb"].as_u64().unwrap_or(0);
         let probes: Vec<i64> = case["probes"].as_array().map(|a| a.iter().filter_map(|x| x.as_i64()).collect()).unwrap_or_default();
         let run = || {
             let mut state = TuiState::new(cap, maxout);
